@@ -86,11 +86,13 @@ Theorem C05_checker_hash_is_xxh64 :
   forall sigs s, memo_hash (mk_tbl sigs) s = xxh64 s.
 Proof. exact memo_hash_is_xxh64. Qed.
 
-(* the constants written into the model are those of the source tree (ConstsC05.v is regenerated from
-   bucketteer/bucketteer.go, deprecated/bucketteer/bucketteer.go and indexmeta/indexmeta.go on every check) *)
+(* version numbers and magic of the model ARE the generated constants; the metadata limits written into the
+   model equal those of the source tree (ConstsC05.v is regenerated from bucketteer/bucketteer.go,
+   deprecated/bucketteer/bucketteer.go and indexmeta/indexmeta.go on every check) *)
 Example C05_constants_match_source :
   version_num V2 = go_version_current /\ version_num V1 = go_version_legacy /\
-  magic = go_magic_current /\ magic = go_magic_legacy /\
+  magic V2 = go_magic_current /\ magic V1 = go_magic_legacy /\
+  length go_magic_current = magic_len /\ length go_magic_legacy = magic_len /\
   N.of_nat max_kvs = go_meta_max_kvs /\ N.of_nat max_key = go_meta_max_key /\ N.of_nat max_value = go_meta_max_value.
 Proof. repeat split; reflexivity. Qed.
 
